@@ -57,21 +57,31 @@ def run(tier):
     r3 = rng.fork("itermut")
     for i in range(200 if quick else 5000):
         gen.append(("itermut/%d" % i, feat_data.iter_mutation_program(r3.fork(str(i))), []))
+    # programs of every feature profile (classes, closures, fibers, exceptions, modules, iteration ...) and multi-run /
+    # host-API histories: whatever else they check, none of them may panic, abort or touch freed memory either
+    from ..gen import feat_repl, profiles as allp
+    wide = [(n, s_, m_) for n, s_, m_ in allp.gc_workload(rng.fork("profiles"), 300 if quick else 8000)]
+    gen += wide
+    histories = []
+    r4 = rng.fork("histories")
+    for i in range(120 if quick else 4000):
+        steps, hm = (feat_repl.history if i % 2 else feat_repl.host_history)(r4.fork(str(i)))
+        histories.append({"name": "history/%d" % i, "steps": steps, "mods": hm, "budget": 3000000})
     ck.coverage["builtin_calls_enumerated"] = ncalls
     ck.coverage["method_names_swept"] = names
     ck.coverage["value_pool_size"] = len(hostile.POOL)
     allprogs = sweep + ops + stress + gen
-    plist = [{"name": n, "steps": [("snip", s)], "mods": m, "budget": 3000000} for n, s, m in allprogs]
+    plist = [{"name": n, "steps": [("snip", s)], "mods": m, "budget": 3000000} for n, s, m in allprogs] + histories
     known = {k.get("sig"): k for k in ck.findings.for_property("C02")}
 
     # oracle A + D on the hooked build
     def seen(p, m, res):
         v = m["view"][0]
-        if v["res"] == "compile_error":
+        if v.get("res") == "compile_error" and not p["name"].startswith("history/"):
             ck.count("programs_not_compiling")
             return
         ck.note_nontrivial(p["steps"][0][1])
-        ck.count("expected_error_outcomes", sum(1 for t in v["out"] if t.endswith("Error>")))
+        ck.count("expected_error_outcomes", sum(1 for t in v.get("out", []) if t.endswith("Error>")))
 
     modelcheck.check_programs(ck, plist, opts={"gc": "always", "quarantine": 1}, on_result=seen, sig_prefix="Hostile")
     # oracle D on dev and asan (programs the model discarded are included here: no expectation needed)
